@@ -73,10 +73,17 @@ class C08(vlib.Check):
                     f["name"] = ""          # a name that is the empty string is a name, not a missing name
             t = rng.choice(["rt", "rt", "rt", "txt"])
             build = rng.choice(["add", "add", "from_array", "from_array_unsorted"])
+            forced = k < 9        # stratified: every kind x both array builds with explicitly stored zeros through savez, on every run
+            if forced:
+                kind, t, build = KINDS[k % 3], "rt", ["from_array", "from_array_unsorted", "from_array"][k // 3]
+                bits = bits if bits >= 8 else 64
+                fps = [gen_fpin(rng, kind, bits, level, keys, none_names=True) for _ in range(nrows)]
             case = {"t": t, "kind": kind, "bits": bits, "level": level, "name": rng.choice([None, "DB", "x y"]),
                     "fps": fps, "build": build}
             if t == "rt":
                 case["how"] = rng.choice(["savez", "savez", "save.fps.bz2", "save.fps.gz", "save.fps"])
+                if forced:
+                    case["how"] = "savez" if k < 6 else "save.fps.gz"
                 case["basename"] = case["how"] == "savez" and rng.random() < 0.25
                 case["cycles"] = rng.randint(1, 3)
             else:
@@ -93,7 +100,7 @@ class C08(vlib.Check):
                 case["ext"] = rng.choice([".txt", ".txt.gz", ".txt.bz2"])
             if build == "from_array_unsorted":
                 case["perm_seed"] = rng.randrange(10 ** 6)
-            if build.startswith("from_array") and t == "rt" and rng.random() < 0.35:
+            if build.startswith("from_array") and t == "rt" and (rng.random() < 0.35 or forced):
                 # explicitly stored zeros (False in a bit matrix): legitimate CSR content - what a fold with cancelling weights, a
                 # threshold `X.data[X.data < t] = 0` or a cast leaves behind; a stored zero is not an "on" position after a reload either
                 case["zeros"] = rng.randrange(10 ** 6)
@@ -120,9 +127,10 @@ class C08(vlib.Check):
             yield {"t": "bigrt", "rows": n_ + rng.randrange(100), "kind": rng.choice(KINDS), "bits": rng.choice([2 ** 32, 4096]), "seed": rng.randrange(10 ** 6),
                    "how": rng.choice(["savez", "savez", "save.fps.gz"])}
         # one path written several times with databases of different sizes (large, then small, then medium), each read back
-        for _ in range(6 if self.tier == "quick" else 60):
+        hows = ["savez", "save.fps.bz2", "save.fps", "savetxt", "savez"]
+        for k in range(6 if self.tier == "quick" else 60):
             self.count("t:overwrite")
-            yield {"t": "overwrite", "kind": rng.choice(KINDS), "seed": rng.randrange(10 ** 6), "how": rng.choice(["savez", "savez", "save.fps.bz2", "save.fps", "savetxt"]),
+            yield {"t": "overwrite", "kind": rng.choice(KINDS), "seed": rng.randrange(10 ** 6), "how": hows[k] if k < len(hows) else rng.choice(hows),
                    "sizes": rng.choice([[400, 3, 60], [60, 2], [200, 1, 200, 5]])}
 
     def _random_db(self, kind, n, bits, seed, names=True):
